@@ -142,7 +142,7 @@ func genCase(r *hlib.Rng, tier string, o opts) In {
 	}
 	nb1, nb2 := r.Intn(maxB+1), r.Intn(maxB+1)
 	if o.ladder {
-		nb1, nb2 = 4+r.Intn(maxB-3), 4+r.Intn(maxB-3)
+		nb1, nb2 = maxB-r.Intn(3), maxB-r.Intn(3)
 	}
 	var leaves1, leaves2 []common.Hash
 	in.L1B, leaves1 = genBridgeBlocks(r, nb1, hlib.Pick(r, uint64(0), 1, 2, 10))
@@ -188,14 +188,20 @@ func genCase(r *hlib.Rng, tier string, o opts) In {
 	for bi := 0; bi < nblocks; bi++ {
 		b := IBlock{Num: num}
 		if o.ladder {
-			// strictly growing roots, one step per block: every deposit count has its own first covering leaf
+			// strictly growing roots, a few deposits per block
 			pos := uint64(0)
 			if c2 < nb2 && in.Net != 0 {
-				c2++
+				c2 += 1 + r.Intn(3) // skipping deposit counts: no exact match for some of them
+				if c2 > nb2 {
+					c2 = nb2
+				}
 				b.Events, pos = appendVB(b.Events, pos, in.Net, roots2[c2-1], m, usedExit)
 			}
 			if c1 < nb1 {
-				c1++
+				c1 += 1 + r.Intn(3)
+				if c1 > nb1 {
+					c1 = nb1
+				}
 			}
 			var mer common.Hash
 			if c1 > 0 {
